@@ -39,3 +39,15 @@ func Harness_C11L2_hole_kinds() {
 	verifAssert(l_hole_slice(a, n) == "xs=["+da+" "+dn+"] "+da, "a slice hole renders as Go %v")
 	verifCover("end")
 }
+
+func Harness_C11L2_hole_names() {
+	n, x := verifInt("n"), verifInt("x")
+	verifAssume(0 <= n)
+	verifAssume(n < 100)
+	verifAssume(0 <= x)
+	verifAssume(x < 100)
+	s := symBuf("s", 1)
+	dn, dx := frt.Sprintf1("%d", n), frt.Sprintf1("%d", x)
+	verifAssert(l_hole_names(n, x, s) == "n="+dn+" x="+dx+" s="+s+dn, "holes whose names start with an underscore or contain digits / underscores")
+	verifCover("end")
+}
